@@ -35,3 +35,45 @@ func init() {
 	register(entryOf[H002]("H002"))
 	register(entryOf[H003]("H003"))
 }
+
+// embedded (anonymous) structs, two levels, the outer one not the first field: the typed write
+// path computes field offsets through the embedding chain. Scalars only inside the embedding: a
+// wrong offset then shows as a wrong value (an input to report) instead of a fatal fault of the
+// harness process on a misread pointer.
+type H004Inner struct {
+	A int32   `parquet:"a"`
+	B float64 `parquet:"b"`
+	C int64   `parquet:"c,optional"`
+}
+
+type H004Mid struct {
+	X int64 `parquet:"x"`
+	H004Inner
+	Y int32 `parquet:"y,optional"`
+}
+
+type H004 struct {
+	ID int64 `parquet:"id"`
+	H004Mid
+	Z []int32 `parquet:"z"`
+}
+
+// Go maps (entry order is unspecified: these types are compared value-wise, not stream-wise)
+type H005 struct {
+	ID int64                       `parquet:"id"`
+	M  map[string]int64            `parquet:"m"`
+	MM map[string]map[string]int64 `parquet:"mm"`
+	S  map[string]H004Inner        `parquet:"s"`
+}
+
+// MapCatalog holds the types with Go maps; they are kept out of Catalog because stream-level
+// comparisons do not apply to them.
+var MapCatalog []*Entry
+
+func init() {
+	register(entryOf[H004]("H004"))
+	if e := entryOf[H005]("H005"); e != nil {
+		e.HasMap = true
+		MapCatalog = append(MapCatalog, e)
+	}
+}
